@@ -42,7 +42,7 @@ fn drive<T: Copy + Default + Ord + Debug>(seed: u64, sequences: usize, gen: fn(&
         let len = 1 + rng.below(12);
         for _ in 0..len {
             steps += 1;
-            match rng.below(22) {
+            match rng.below(25) {
                 0 | 1 | 2 => if r.len() < CAP { let t = gen(&mut rng); trace += &format!("; push({t:?})"); m.push(t); r.push(t); },
                 3 => { trace += "; pop()"; assert_eq!(m.pop(), r.pop(), "pop result, {trace}"); }
                 4 => if rng.below(4) == 0 { trace += "; clear()"; m.clear(); r.clear(); },
@@ -107,6 +107,14 @@ fn drive<T: Copy + Default + Ord + Debug>(seed: u64, sequences: usize, gen: fn(&
                     r.retain(|x| { seen_r.push(*x); key(x) < k || (key(x) % 2 == 1) == parity });
                     assert_eq!(seen_m, seen_r, "elements offered to the retain predicate (order, each once), {trace}");
                 }
+                22 => { trace += "; dedup()"; m.dedup(); r.dedup(); }
+                23 => { let n = rng.below(r.len() as u64 + 2) as usize; trace += &format!("; truncate({n})"); m.truncate(n); r.truncate(n); }
+                24 => if r.len() < CAP {
+                    let idx = rng.below(r.len() as u64 + 2) as usize; let t = gen(&mut rng);
+                    trace += &format!("; insert({idx}, {t:?})");
+                    let (a, b) = (attempt(|| m.insert(idx, t)), attempt(|| r.insert(idx, t)));
+                    same_panic_behaviour(a, b, &trace);
+                },
                 17 => { trace += "; sort()"; m.sort(); r.sort(); }
                 18 => {
                     // stability is observable through the second component
